@@ -210,6 +210,8 @@ func init() {
 			Run: func(P *Program, R *Report) { inPlaceDisciplineRule(P, R, "C05.h", "gabi.CLSignature", "gabikeys.PublicKey", "gabikeys.PrivateKey") }},
 		Rule{ID: "C05.f", Explain: "RepresentToBases hashes oversized messages exactly like the prover and verifier (C01.f).",
 			Run: func(P *Program, R *Report) { oversizedHashRuleAs(P, R, "C05.f") }},
+		Rule{ID: "C05.j", Explain: "no failure is dropped while signing and verifying CL signatures (clsignature.go): a failed representation, inverse, prime draw or exponentiation ends the call (same rule as C08.g: the error a call returns has a use - a nil test or a return - before it is overwritten, shadowed or left behind).",
+			Run: func(P *Program, R *Report) { errorResultsUsedRule(P, R, "C05.j", inFiles(P, "clsignature.go"), nil, 5) }},
 	)
 }
 
